@@ -48,6 +48,9 @@ def rand_prog(rnd):
             act = rnd.choice([{"t": "count"}, {"t": "setttl", "k": rnd.choice([9, 64, 255, 0])}, {"t": "local"}])
             pat = rand_pat(rnd) if rnd.random() < 0.8 else {"t": "none"}
         fs.append({"pat": pat, "act": act, "style": rnd.randrange(4)})
+    if fs and rnd.random() < 0.2:
+        # a pattern that is not a boolean - only in the last filter (see spec/FilterMode.tla)
+        fs[-1]["pat"] = rnd.choice([{"t": "npint", "m": rnd.choice([2, 3])}, {"t": "cntval"}])
     has_end = rnd.random() < 0.6
     if not fs and not has_end:
         has_end = True          # without any filter the program is an ordinary script, not filter mode
@@ -64,6 +67,10 @@ def pat_src(p):
         return "NP %% %d == %d" % (p["m"], p["r"])
     if t == "cmp":
         return "%s %s %d" % (p["v"], p["op"], p["k"])
+    if t == "npint":
+        return "NP %% %d" % p["m"]
+    if t == "cntval":
+        return "cnt"
     if t == "ethtype":
         return "($1).type == %d" % p["k"]
     return "($2).ttl %s %d" % (p["op"], p["k"])
@@ -158,6 +165,8 @@ def run(rep, tier, seed):
                 continue
             if parts[0] in ("MAIN", "A", "END") and all(p.lstrip("-").isdigit() for p in parts[1:]):
                 log.append([parts[0]] + [int(x) for x in parts[1:]])
+            elif "filter expression must evaluate to a boolean" in line:
+                log.append(["FAULT"])
             else:
                 bad_line = line
         out = r["out"]
